@@ -343,6 +343,21 @@ def main(argv):
                         report["option_failures"].append({"set": sname, "options": kw, "what": "functions missing from the output: %s" % missing})
             except Exception as e:
                 report["option_failures"].append({"set": sname, "options": kw, "what": "%s: %s" % (type(e).__name__, str(e)[:200])})
+        # history dependence: the default output must be byte-identical after other option combinations were used
+        d3 = os.path.join(work, sname + "_again")
+        os.makedirs(d3, exist_ok=True)
+        try:
+            with contextlib.redirect_stdout(sink), contextlib.redirect_stderr(sink):
+                entry(d3)
+            for fn in sorted(os.listdir(dest)):
+                if fn.endswith(".so"):
+                    continue
+                a = open(os.path.join(dest, fn), "rb").read()
+                b = open(os.path.join(d3, fn), "rb").read() if os.path.exists(os.path.join(d3, fn)) else None
+                if a != b:
+                    report["option_failures"].append({"set": sname, "options": "default, after the other combinations", "what": "default-option output %s differs from the first default run (generator options leak between calls)" % fn})
+        except Exception as e:
+            report["option_failures"].append({"set": sname, "options": "default, after the other combinations", "what": "%s: %s" % (type(e).__name__, str(e)[:200])})
         report["sets"][sname] = srec
     coq.append("Definition c_funcs : list func := [\n%s\n]." % ";\n".join(c_funcs))
     coq.append("Definition sx_funcs : list func := [\n%s\n]." % ";\n".join(sx_funcs))
